@@ -12,8 +12,14 @@ CATALOG = {
     "C01": {
         "drivers": [("ring", {"quick": 500, "thorough": 20000}, {})],
         "models": [{"module": "MC_Ring", "cfg": {"quick": "MC_Ring_quick", "thorough": "MC_Ring_thorough"},
-                    "replay": "run_ring_program", "leaf": "has_op",
-                    "limit": {"quick": 6000, "thorough": 400000}}],
+                    "extract": "ring_programs", "replay": "run_ring_program",
+                    "limit": {"quick": 5000, "thorough": 400000}}],
+    },
+    "C14": {
+        "drivers": [("options", {"quick": 400, "thorough": 20000}, {})],
+        "models": [{"module": "MC_Options", "cfg": {"quick": "MC_Options_quick", "thorough": "MC_Options_thorough"},
+                    "dump": "dot", "extract": "option_walks_items", "replay": "run_option_walk",
+                    "limit": {"quick": 100000, "thorough": 1000000}}],
     },
 }
 
@@ -42,7 +48,8 @@ def run_model_stage(pid: str, m: dict, tier: str, seed: int, wd: str):
     """TLC on one bounded model; returns (stats for the evidence, replay tasks)."""
     cfg = m["cfg"][tier]
     dump = os.path.join(wd, cfg + ".dump") if m.get("replay") else None
-    res = tlc.run_model(m["module"], cfg, wd, dump=dump, timeout=m.get("timeout", 3000))
+    res = tlc.run_model(m["module"], cfg, wd, dump=dump, dump_kind=m.get("dump", "states"),
+                        timeout=m.get("timeout", 3000))
     if res["violated"]:
         log = os.path.join(wd, cfg + ".tlc.log")
         with open(log, "w") as fh:
@@ -60,16 +67,16 @@ def run_model_stage(pid: str, m: dict, tier: str, seed: int, wd: str):
             raise tlc.MachineryError("action %s of %s was never taken: the model is vacuous" % (act, cfg))
     tasks = []
     if dump:
-        leaf = getattr(replay, "leaf_" + m["leaf"]) if m.get("leaf") else None
-        progs = list(replay.leaf_programs(dump + ".dump" if not os.path.exists(dump) else dump,
-                                          var=m.get("var", "prog"), is_leaf=leaf))
+        path = dump if os.path.exists(dump) else dump + (".dot" if m.get("dump") == "dot" else ".dump")
+        items, extra = getattr(replay, m["extract"])(path)
+        stats.update(extra)
         limit = m["limit"][tier]
-        stats["programs"] = len(progs)
-        if len(progs) > limit:
-            # deterministic thinning by seed: every k-th program, offset by the seed
-            k = (len(progs) + limit - 1) // limit
-            progs = progs[seed % k::k]
-        stats["programs_replayed"] = len(progs)
-        tasks = pool.replay_tasks(m["replay"], progs, pid, kw=m.get("kw"))
-        os.remove(dump if os.path.exists(dump) else dump + ".dump")
+        stats["programs"] = len(items)
+        if len(items) > limit:
+            # deterministic thinning: every k-th program, offset by the seed
+            k = (len(items) + limit - 1) // limit
+            items = items[seed % k::k]
+        stats["programs_replayed"] = len(items)
+        tasks = pool.replay_tasks(m["replay"], items, pid, kw=m.get("kw"))
+        os.remove(path)
     return stats, tasks
